@@ -150,7 +150,11 @@ class Result:
         if (
             isinstance(self.samples, np.ndarray)
             and self.samples.dtype not in (np.int32, np.int64)
-        ) or (self.samples and not isinstance(self.samples[0][0], (int, np.integer))):
+        ) or (
+            self.samples
+            and self.samples[0]
+            and not isinstance(self.samples[0][0], (int, np.integer))
+        ):
             raise NotImplementedError(
                 "The 'Result.get_counts' method only supports samples that contain "
                 "integers (e.g., samples from 'ParticleNumberMeasurement')."
@@ -158,9 +162,13 @@ class Result:
 
         shots = cast(int, self._shots)
 
-        ret = {}
+        ret: dict = {}
         for branch in self.branches:
-            ret[branch.outcome] = int(branch.frequency * shots)
+            # NOTE: Several branches may carry the same outcome (e.g., one branch per shot
+            # is created by the Gaussian simulators), so the counts are accumulated.
+            ret[branch.outcome] = ret.get(branch.outcome, 0) + int(
+                branch.frequency * shots
+            )
 
         return ret
 
